@@ -194,3 +194,19 @@ Definition eval_scalar_arith_bits (op : binop) (l r : Z) : Z :=
   end.
 Definition eval_scalar_cmp_bits (op : binop) (l r : Z) : bool :=
   match op with BEq => l =? r | BNe => negb (l =? r) | _ => false end.
+
+(* every intermediate result of eval_constant_int lies in the range of the 32-bit type its kind
+   stands for (Sint: [-2^31, 2^31), Uint: [0, 2^32)): then no wrap-around was skipped *)
+Definition fits (k : mkind) (v : Z) : bool :=
+  match k with KSint => (- H32 <=? v) && (v <? H32) | KUint => (0 <=? v) && (v <? M32) end.
+Fixpoint eval_exact (e : cexpr) : bool :=
+  match eval_constant_int e with
+  | Some (k, v) =>
+    fits k v &&
+    match e with
+    | CUn _ a | CAs _ a => eval_exact a
+    | CBin _ a b => eval_exact a && eval_exact b
+    | _ => true
+    end
+  | None => true
+  end.
